@@ -160,12 +160,15 @@ func checkC08(p *Program, r *Report) {
 		}
 		c08Alloc(p, r, fn, lc, pr)
 		c08Loops(p, r, fn, lc, av)
+		c08NilResults(p, r, fn)
 	}
 	c08Recursion(p, r, scope)
 	r.extra["obligation_kinds"] = kinds
 	r.extra["discharge_methods"] = hows
 	r.Floor("C08.bounds", 130)
 	r.Floor("C08.loops", 30)
+	r.Floor("C08.eof", 2)
+	r.Floor("C08.nil", 3)
 	r.Floor("C08.recursion", 2)
 	r.Floor("C08.alloc", 6)
 	r.Floor("C08.external", 2)
@@ -533,6 +536,104 @@ func c08Loops(p *Program, r *Report, fn *ssa.Function, lc *LinCtx, av *Avail) {
 			}
 		}
 		r.Add("C08.loops", FnName(fn), cname, pos, ok, kind+": "+how)
+		if kind != "range" {
+			c08ErrorLeavesLoop(p, r, fn, h, body, i+1)
+		}
+	}
+}
+
+// c08ErrorLeavesLoop (C08.eof): a loop that is not a range over its input but calls, on every iteration, an in-repo
+// function that can fail (last result of type error) runs as long as a count says, not as long as there is input —
+// unless a failure ends it.  Required: no path inside the loop leads from such a call back to the loop header except
+// through an edge on which the error is known to be nil.  (The count is typically decoded from the input: without
+// this, eight bytes claiming 2³²−1 elements keep the loop busy for 2³² iterations.)
+func c08ErrorLeavesLoop(p *Program, r *Report, fn *ssa.Function, h *ssa.BasicBlock, body map[*ssa.BasicBlock]bool, num int) {
+	errT := types.Universe.Lookup("error").Type()
+	for b := range body {
+		for idx, in := range b.Instrs {
+			c, ok := in.(*ssa.Call)
+			if !ok {
+				continue
+			}
+			cal := c.Call.StaticCallee()
+			if cal == nil || !p.InRepo(cal) {
+				continue
+			}
+			res := cal.Signature.Results()
+			if res.Len() == 0 || !types.Identical(res.At(res.Len()-1).Type(), errT) {
+				continue
+			}
+			// on every iteration?
+			every := true
+			for _, t := range h.Preds {
+				if body[t] && !b.Dominates(t) {
+					every = false
+				}
+			}
+			if !every {
+				continue
+			}
+			// the error value
+			var errV ssa.Value
+			if res.Len() == 1 {
+				errV = c
+			} else {
+				for _, ref := range *c.Referrers() {
+					if ex, ok := ref.(*ssa.Extract); ok && ex.Index == res.Len()-1 {
+						errV = ex
+					}
+				}
+			}
+			if errV == nil {
+				r.Add("C08.eof", FnName(fn), fmt.Sprintf("loop #%d: a failure of %s ends the loop", num, FnName(cal)), c.Pos(), false, "the error result is dropped")
+				continue
+			}
+			// edges certifying err == nil
+			nilEdge := func(from *ssa.BasicBlock, k int) bool {
+				iff, ok := lastInstr(from).(*ssa.If)
+				if !ok {
+					return false
+				}
+				bo, ok := iff.Cond.(*ssa.BinOp)
+				if !ok {
+					return false
+				}
+				isErr := func(v ssa.Value) bool { return v == errV }
+				isNil := func(v ssa.Value) bool { cst, ok := v.(*ssa.Const); return ok && cst.IsNil() }
+				if !((isErr(bo.X) && isNil(bo.Y)) || (isErr(bo.Y) && isNil(bo.X))) {
+					return false
+				}
+				return (bo.Op == token.EQL && k == 0) || (bo.Op == token.NEQ && k == 1)
+			}
+			// reach the header from the call without taking a nil-certifying edge, staying inside the loop
+			seen := map[*ssa.BasicBlock]bool{}
+			var reach func(x *ssa.BasicBlock) bool
+			reach = func(x *ssa.BasicBlock) bool {
+				for k, sx := range x.Succs {
+					if !body[sx] || nilEdge(x, k) {
+						continue
+					}
+					if sx == h {
+						return true
+					}
+					if seen[sx] {
+						continue
+					}
+					seen[sx] = true
+					if reach(sx) {
+						return true
+					}
+				}
+				return false
+			}
+			_ = idx
+			bad := reach(b)
+			how := "every path from the call back to the loop header passes an edge on which the error is nil"
+			if bad {
+				how = "a path leads from the call back to the loop header on which the error may be non-nil (for example a break that only leaves a switch)"
+			}
+			r.Add("C08.eof", FnName(fn), fmt.Sprintf("loop #%d: a failure of %s ends the loop", num, FnName(cal)), c.Pos(), !bad, how)
+		}
 	}
 }
 
@@ -1383,4 +1484,152 @@ func visitsOnce(f *ssa.Function, calls []*ssa.Call, argIdx int) (bool, string) {
 		}
 	}
 	return true, ""
+}
+
+// ---- C08.nil: a pointer that an in-repo function may return as nil is not dereferenced, and not handed to code
+// outside the repository (which dereferences it), before it has been compared with nil.  Functions that return the
+// pointer together with an error are the (T, error) idiom — there the error is what callers test — and are left out.
+
+var mayNilMemo = map[*ssa.Function]int{} // 0 unknown, 1 busy, 2 no, 3 yes
+
+func mayReturnNil(p *Program, fn *ssa.Function) bool {
+	switch mayNilMemo[fn] {
+	case 1, 2:
+		return false
+	case 3:
+		return true
+	}
+	mayNilMemo[fn] = 1
+	res := false
+	var isNilish func(v ssa.Value, depth int) bool
+	isNilish = func(v ssa.Value, depth int) bool {
+		if depth > 4 {
+			return false
+		}
+		switch x := v.(type) {
+		case *ssa.Const:
+			return x.IsNil()
+		case *ssa.Phi:
+			for _, e := range x.Edges {
+				if isNilish(e, depth+1) {
+					return true
+				}
+			}
+		case *ssa.Call:
+			if cal := x.Call.StaticCallee(); cal != nil && p.InRepo(cal) && len(cal.Blocks) > 0 && cal.Signature.Results().Len() == 1 {
+				return mayReturnNil(p, cal)
+			}
+		case *ssa.ChangeType:
+			return isNilish(x.X, depth+1)
+		}
+		return false
+	}
+	for _, ret := range returnsOf(fn) {
+		if len(ret.Results) == 1 && isNilish(ret.Results[0], 0) {
+			res = true
+		}
+	}
+	if res {
+		mayNilMemo[fn] = 3
+	} else {
+		mayNilMemo[fn] = 2
+	}
+	return res
+}
+
+func c08NilResults(p *Program, r *Report, fn *ssa.Function) {
+	for _, b := range fn.Blocks {
+		for _, in := range b.Instrs {
+			c, ok := in.(*ssa.Call)
+			if !ok {
+				continue
+			}
+			cal := c.Call.StaticCallee()
+			if cal == nil || !p.InRepo(cal) || len(cal.Blocks) == 0 || cal.Signature.Results().Len() != 1 {
+				continue
+			}
+			if _, isPtr := cal.Signature.Results().At(0).Type().Underlying().(*types.Pointer); !isPtr {
+				continue
+			}
+			cname := "result of " + FnName(cal) + " is not used as a valid pointer while it may be nil"
+			if !mayReturnNil(p, cal) {
+				r.Add("C08.nil", FnName(fn), cname, c.Pos(), true, "no return of the callee yields nil")
+				continue
+			}
+			// values that carry the result: the call and φs merging it
+			carriers := map[ssa.Value]bool{c: true}
+			for changed := true; changed; {
+				changed = false
+				for _, bb := range fn.Blocks {
+					for _, ii := range bb.Instrs {
+						if ph, ok := ii.(*ssa.Phi); ok && !carriers[ph] {
+							for _, e := range ph.Edges {
+								if carriers[e] {
+									carriers[ph] = true
+									changed = true
+								}
+							}
+						}
+					}
+				}
+			}
+			guarded := func(v ssa.Value, at *ssa.BasicBlock) bool {
+				for _, cd := range MustCondsAtBlock(fn, at) {
+					bo, ok := cd.V.(*ssa.BinOp)
+					if !ok {
+						continue
+					}
+					isNil := func(x ssa.Value) bool { k, ok := x.(*ssa.Const); return ok && k.IsNil() }
+					if (bo.X == v && isNil(bo.Y)) || (bo.Y == v && isNil(bo.X)) {
+						if (bo.Op == token.NEQ && cd.Truth) || (bo.Op == token.EQL && !cd.Truth) {
+							return true
+						}
+					}
+				}
+				return false
+			}
+			var bad []string
+			for v := range carriers {
+				for _, u := range *v.Referrers() {
+					var what string
+					switch x := u.(type) {
+					case *ssa.UnOp:
+						if x.Op == token.MUL && x.X == v {
+							what = "dereferenced"
+						}
+					case *ssa.FieldAddr:
+						if x.X == v {
+							what = "field accessed"
+						}
+					case *ssa.IndexAddr:
+						if x.X == v {
+							what = "indexed"
+						}
+					case ssa.CallInstruction:
+						com := x.Common()
+						if cal2 := com.StaticCallee(); cal2 == nil || !p.InRepo(cal2) || len(cal2.Blocks) == 0 {
+							for _, a := range com.Args {
+								if a == v {
+									what = "handed to " + calleeName(com)
+								}
+							}
+							if com.IsInvoke() && com.Value == v {
+								what = "method called on it"
+							}
+						}
+					}
+					if what != "" && !guarded(v, u.Block()) {
+						bad = append(bad, what+" at "+p.Pos(u.Pos()))
+					}
+				}
+			}
+			sort.Strings(bad)
+			bad = dedup(bad)
+			how := "every use as a pointer is behind a comparison with nil"
+			if len(bad) > 0 {
+				how = "the callee can return nil and the result is " + strings.Join(bad, "; ") + " without a nil test"
+			}
+			r.Add("C08.nil", FnName(fn), cname, c.Pos(), len(bad) == 0, how)
+		}
+	}
 }
